@@ -166,6 +166,54 @@ class Scan:
                     add(n.args[0].value)
         return out
 
+    # ---- classes of other lcapy modules that are handed `self` (CircuitGraph.from_circuit(self), Analysis(self, ...))
+    def ext_class(self, cname):
+        if not hasattr(self, '_ext'):
+            self._ext = {}
+            d = os.path.join(self.repo, 'lcapy')
+            for fn in sorted(os.listdir(d)):
+                if not fn.endswith('.py'):
+                    continue
+                try:
+                    src = open(os.path.join(d, fn)).read()
+                    if 'class ' not in src:
+                        continue
+                    with warnings.catch_warnings():
+                        warnings.simplefilter('ignore')
+                        tree = ast.parse(src)
+                except Exception:
+                    continue
+                for cls in [n for n in tree.body if isinstance(n, ast.ClassDef)]:
+                    self._ext.setdefault(cls.name, {f.name: f for f in cls.body if isinstance(f, ast.FunctionDef)})
+        return self._ext.get(cname)
+
+    def ext_refs(self, call):
+        """attributes of the netlist read by an external constructor / classmethod that receives `self`"""
+        pos = [k for k, a in enumerate(call.args) if isinstance(a, ast.Name) and a.id == 'self']
+        if not pos:
+            return []
+        fu = call.func
+        if isinstance(fu, ast.Name):
+            cname, meth, shift = fu.id, '__init__', 1
+        elif isinstance(fu, ast.Attribute) and isinstance(fu.value, ast.Name) and fu.value.id[:1].isupper():
+            cname, meth, shift = fu.value.id, fu.attr, 1       # classmethod: first parameter is cls
+        else:
+            return []
+        cls = self.ext_class(cname)
+        if cls is None or cname in CLASS_ORDER or meth not in cls:
+            return []
+        f = cls[meth]
+        params = [a.arg for a in f.args.args]
+        out = []
+        for k in pos:
+            if k + shift >= len(params):
+                continue
+            pn = params[k + shift]
+            for n in ast.walk(f):
+                if isinstance(n, ast.Attribute) and isinstance(n.value, ast.Name) and n.value.id == pn and n.attr not in out:
+                    out.append(n.attr)
+        return out
+
     # ---- self.<attr> references
     def selfrefs(self, f):
         refs = []
@@ -176,6 +224,10 @@ class Scan:
                     and not isinstance(n.ctx, ast.Del):
                 if n.attr not in refs:
                     refs.append(n.attr)
+            if isinstance(n, ast.Call):
+                for r in self.ext_refs(n):
+                    if r not in refs:
+                        refs.append(r)
         return refs
 
     def calls_self(self, f, name):
@@ -290,8 +342,26 @@ class Scan:
         self.unparsed.append('_cpt_add-no-override-branch')
         return False
 
-    def remove_checks_first(self):
-        """does Node.remove / Nodes._delete raise only before anything was changed?  (not analysed: False)"""
+    def keep_connected_node(self):
+        """node.py `Node.remove`: is the `_delete` of a node whose count reached zero guarded by a test of
+        its remaining connections?  (otherwise `Nodes._delete` raises half way through `Netlist.remove`)"""
+        path = os.path.join(self.repo, 'lcapy', 'node.py')
+        try:
+            with warnings.catch_warnings():
+                warnings.simplefilter('ignore')
+                tree = ast.parse(open(path).read())
+        except Exception:
+            self.unparsed.append('node.py')
+            return False
+        for cls in [n for n in tree.body if isinstance(n, ast.ClassDef) and n.name == 'Node']:
+            for f in [n for n in cls.body if isinstance(n, ast.FunctionDef) and n.name == 'remove']:
+                for n in ast.walk(f):
+                    if isinstance(n, ast.If) and any(isinstance(c, ast.Call) and isinstance(c.func, ast.Attribute) and c.func.attr == '_delete'
+                                                     for b in n.body for c in ast.walk(b)):
+                        return 'connected' in ast.unparse(n.test)
+                self.unparsed.append('Node.remove:no-_delete-branch')
+                return False
+        self.unparsed.append('node.py:no-Node.remove')
         return False
 
     def set_iteration_sites(self):
@@ -338,6 +408,8 @@ class Scan:
                                 and isinstance(n.func.value, ast.Name) and n.func.value.id in ('kwargs', 'assumptions') \
                                 and n.args and isinstance(n.args[0], ast.Constant):
                             d = ast.unparse(n.args[1]) if len(n.args) > 1 else 'None'
+                            # defaults are compared by truth value (None / False / 0 behave alike in `if kwargs.get(...)`)
+                            d = {'True': 'true', 'False': 'false', 'None': 'false', '0': 'false'}.get(d, d)
                             p = (n.args[0].value, d)
                             if p not in ps:
                                 ps.append(p)
@@ -385,12 +457,13 @@ def generate(repo):
             if isinstance(f, ast.FunctionDef) and f.name == '__init__':
                 init_inv = sc.calls_self(f, '_invalidate')
     detach = sc.override_detaches()
+    keepn = sc.keep_connected_node()
     sites = sc.set_iteration_sites()
     trs = sc.transformers()
     mutd = {m[0]: m[1] for m in muts}
     info = {'memoised': [m[0] for m in memo], 'cleared': cleared,
             'not_cleared': [m[0] for m in memo if m[0] not in cleared],
-            'mutators': muts, 'initInvalidates': init_inv, 'overrideDetaches': detach,
+            'mutators': muts, 'initInvalidates': init_inv, 'overrideDetaches': detach, 'keepConnectedNode': keepn,
             'deps': deps, 'reads': reads, 'spawns': spawns, 'setIterationSites': sites,
             'transformers': [(t[0], t[2], t[3]) for t in trs], 'unparsed': sc.unparsed}
 
@@ -436,6 +509,7 @@ def generate(repo):
     L.append('  removeInvalidates := %s' % ('true' if mutd.get('remove') else 'false'))
     L.append('  initInvalidates := %s' % ('true' if init_inv else 'false'))
     L.append('  overrideDetaches := %s' % ('true' if detach else 'false'))
+    L.append('  keepConnectedNode := %s' % ('true' if keepn else 'false'))
     L.append('  deps := deps')
     L.append('  reads := reads')
     L.append('  spawns := spawns')
